@@ -83,3 +83,71 @@ func init() {
 	register("c11", genC11)
 	registerKind("c11.raffle", runC11Raffle)
 }
+
+// ---------------------------------------------------------------------------------------------
+// c11.verify: the scheduler's validation of generated job definitions (1-3 triggers; cron / onchange / unknown type,
+// valid or invalid job type, schedule, monitored dataset; error handler lists with known, unknown and duplicate
+// types). An accepted definition must have every per-entity handler initialised on EVERY trigger (a nil handler
+// crashes the first run that meets a rejected entity — for an on-change trigger that is the hub process).
+// in {"triggers":[{"type","jobType","monitored":bool,"schedule":bool,"handlers":[types]}]}  out {"accepted","ready"}
+
+var c11VerifyN int
+
+func runC11Verify(c *Ctx, in M) (out interface{}) {
+	defer func() {
+		if r := recover(); r != nil {
+			out = M{"panic": fmt.Sprint(r)}
+		}
+	}()
+	if c17Hub == nil {
+		c17Hub = NewHub(c, true)
+	}
+	c11VerifyN++
+	cfg := &jobs.JobConfiguration{ID: fmt.Sprintf("c11v-%d-%d", c.Seed, c11VerifyN), Title: fmt.Sprintf("c11v-%d-%d", c.Seed, c11VerifyN),
+		Source: map[string]interface{}{"Type": "SampleSource"}, Sink: map[string]interface{}{"Type": "DevNullSink"}}
+	for _, t := range getl(in, "triggers") {
+		tm := t.(map[string]interface{})
+		tr := jobs.JobTrigger{TriggerType: gets(tm, "type"), JobType: gets(tm, "jobType")}
+		if getb(tm, "monitored") {
+			tr.MonitoredDataset = "some.dataset"
+		}
+		if getb(tm, "schedule") {
+			tr.Schedule = "@every 1h"
+		} else {
+			tr.Schedule = "not a schedule"
+		}
+		for _, h := range getl(tm, "handlers") {
+			tr.ErrorHandlers = append(tr.ErrorHandlers, &jobs.ErrorHandler{Type: h.(string)})
+		}
+		cfg.Triggers = append(cfg.Triggers, tr)
+	}
+	acc, ready := jobs.VerifVerify(c17Hub.Sched, cfg)
+	return M{"accepted": acc, "ready": ready}
+}
+
+func genC11Verify(c *Ctx) {
+	n := 300
+	if c.Thorough {
+		n = 4000
+	}
+	types := []string{"cron", "onchange", "onchange", "cron", "weekly"}
+	jts := []string{"incremental", "fullsync", "incremental", "sometimes"}
+	hs := []string{"log", "reRun", "reQueue", "LOG", "bogus"}
+	for i := 0; i < n; i++ {
+		trs := []M{}
+		for k := 0; k < 1+c.Rng.Intn(3); k++ {
+			handlers := []string{}
+			for j := 0; j < c.Rng.Intn(3); j++ {
+				handlers = append(handlers, hs[c.Rng.Intn(len(hs))])
+			}
+			trs = append(trs, M{"type": types[c.Rng.Intn(len(types))], "jobType": jts[c.Rng.Intn(len(jts))],
+				"monitored": c.Rng.Intn(4) != 0, "schedule": c.Rng.Intn(4) != 0, "handlers": handlers})
+		}
+		c.Do("c11.verify", M{"triggers": trs})
+	}
+}
+
+func init() {
+	register("c11verify", genC11Verify)
+	registerKind("c11.verify", runC11Verify)
+}
